@@ -335,7 +335,7 @@ func floatGFormat(f px.Format, value float64) string {
 	}
 	if strings.IndexByte(str, sc) >= 0 {
 		// Scientific notation in use.
-		return str
+		return padFloat(f, str)
 	}
 
 	// Go might strip both trailing zeroes and decimal point when using '%g'. The
@@ -360,41 +360,36 @@ func floatGFormat(f px.Format, value float64) string {
 		}
 	}
 
-	b := bytes.NewBufferString(``)
-
-	padByte := byte(' ')
-	if f.IsZeroPad() {
-		padByte = '0'
-	}
-	pad := 0
-	if f.Width() > 0 {
-		pad = f.Width() - (totLen + missing + 1)
-	}
-
-	if !f.IsLeft() {
-		for ; pad > 0; pad-- {
-			b.WriteByte(padByte)
-		}
-	}
-
-	b.WriteString(str)
+	b := bytes.NewBufferString(str)
 	if dotIndex < 0 {
 		b.WriteByte('.')
 		if missing == 0 {
 			b.WriteByte('0')
 		}
 	}
-	for missing > 0 {
+	for ; missing > 0; missing-- {
 		b.WriteByte('0')
-		missing--
 	}
+	return padFloat(f, b.String())
+}
 
-	if f.IsLeft() {
-		for ; pad > 0; pad-- {
-			b.WriteByte(padByte)
+// padFloat pads the text of a number to the width of f: on the right when left adjusted, otherwise
+// on the left, with zeroes between the sign and the digits when zero padding is asked for
+func padFloat(f px.Format, str string) string {
+	pad := f.Width() - len(str)
+	switch {
+	case pad <= 0:
+		return str
+	case f.IsLeft():
+		return str + strings.Repeat(` `, pad)
+	case f.IsZeroPad() && !strings.ContainsAny(str, `IN`):
+		sign := 0
+		if str[0] == '-' || str[0] == '+' || str[0] == ' ' {
+			sign = 1
 		}
+		return str[:sign] + strings.Repeat(`0`, pad) + str[sign:]
 	}
-	return b.String()
+	return strings.Repeat(` `, pad) + str
 }
 
 func (fv floatValue) PType() px.Type {
